@@ -535,6 +535,26 @@ func validateGrpcStatusCode(code *int) string {
 	return ""
 }
 
+// validateActionReturnHeader validates a header of a return action: the name must be an HTTP header name and the
+// value, which is written between double quotes, must have its double quotes escaped.
+func validateActionReturnHeader(h v1.Header, fieldPath *field.Path) field.ErrorList {
+	allErrs := field.ErrorList{}
+
+	if h.Name == "" {
+		allErrs = append(allErrs, field.Required(fieldPath.Child("name"), ""))
+	}
+
+	for _, msg := range validation.IsHTTPHeaderName(h.Name) {
+		allErrs = append(allErrs, field.Invalid(fieldPath.Child("name"), h.Name, msg))
+	}
+
+	if err := ValidateEscapedString(h.Value, "value", `\"${request_uri}\"`); err != nil {
+		allErrs = append(allErrs, field.Invalid(fieldPath.Child("value"), h.Value, err.Error()))
+	}
+
+	return allErrs
+}
+
 func validateHeader(h v1.Header, fieldPath *field.Path) field.ErrorList {
 	allErrs := field.ErrorList{}
 
@@ -937,6 +957,9 @@ func (vsv *VirtualServerValidator) validateAction(action *v1.Action, fieldPath *
 
 	if action.Return != nil {
 		allErrs = append(allErrs, vsv.validateActionReturn(action.Return, fieldPath.Child("return"), returnBodySpecialVariables, returnBodyVariables)...)
+		for i, h := range action.Return.Headers {
+			allErrs = append(allErrs, validateActionReturnHeader(h, fieldPath.Child("return").Child("headers").Index(i))...)
+		}
 	}
 
 	if action.Proxy != nil {
